@@ -280,3 +280,24 @@ Qed.
 Lemma c15_clockref_u64 c : cr_base c < 8589934592 -> cr_ext c < 512 ->
   clockref_to_u64 c = cr_base c * 300 + cr_ext c /\ clockref_to_u64 c < 18446744073709551616.
 Proof. intros. unfold clockref_to_u64. split; lia. Qed.
+
+(* ---- wrap detection over ALL pairs of in-range timestamps (converse direction of c15_wrap) ---- *)
+Lemma c15_wrap_pairs : forall self since, self < 8589934592 -> since < 8589934592 ->
+  ts_likely_wrapped_since self since = true <->
+  exists d, 0 < d /\ d <= 4294967296 /\ 8589934592 <= since + d /\ self = (since + d) mod 8589934592.
+Proof.
+  intros self since Hs Hn. unfold ts_likely_wrapped_since, TS_MAX.
+  change (8589934591 / 2) with 4294967295.
+  split.
+  - destruct (self <=? since) eqn:E; [|discriminate]. intros H.
+    exists (self + 8589934592 - since). lia.
+  - intros [d [H0 [H1 [H2 H3]]]].
+    assert (self = since + d - 8589934592) by lia.
+    destruct (self <=? since) eqn:E; lia.
+Qed.
+
+Lemma c15_wrap_antisym : forall a b, ts_likely_wrapped_since a b = true -> ts_likely_wrapped_since b a = false.
+Proof.
+  intros a b. unfold ts_likely_wrapped_since, TS_MAX. change (8589934591 / 2) with 4294967295.
+  destruct (a <=? b) eqn:E1; destruct (b <=? a) eqn:E2; lia.
+Qed.
